@@ -126,6 +126,31 @@ Theorem c08_gcmkw_fields : forall O a s prot unprot r d cek p' r' ek,
     add_header s (fst pr) (snd pr) (s_ "tag") (PStr (b64e tg)) = Ok (p', r').
 Proof. exact gcmkw_fields. Qed.
 
+(* ---- DEFLATE framing: under the zlib contract (RFC 1950: zlib.compress = 2-octet header ++ COMPLETE raw RFC 1951
+   stream ++ 4-octet Adler-32; validated against real zlib on every recorded call by harness/props/c08.py), what
+   DeflateZipModel.compress returns - and what is encrypted when "zip" is in the protected header - is a complete
+   raw DEFLATE stream of the plaintext: a strict inflater reaches end-of-stream with no trailing data ---- *)
+Theorem c08_deflate_raw : forall O (raw_inflate : bytes -> res (bytes * bool * bytes)),
+  (forall s z, o_deflate O s = Ok z ->
+     exists hdr raw adler, spec_zlib_format z hdr raw adler /\ spec_complete_raw raw_inflate raw s) ->
+  forall s c, zip_compress O s = Ok c -> spec_complete_raw raw_inflate c s.
+Proof. exact deflate_raw. Qed.
+
+Theorem c08_deflate_raw_message : forall O (raw_inflate : bytes -> res (bytes * bool * bytes)),
+  (forall s z, o_deflate O s = Ok z ->
+     exists hdr raw adler, spec_zlib_format z hdr raw adler /\ spec_complete_raw raw_inflate raw s) ->
+  forall g prot m c,
+  dmem prot (s_ "zip") = true -> zip_plain O g prot m = Ok c -> spec_complete_raw raw_inflate c m.
+Proof. exact deflate_raw_message. Qed.
+
+(* the zlib header the model strips is the one the implementation compares with (GZIP_HEAD in jwe_zips.py) *)
+Example c08_zlib_header : zip_gzip_head = spec_zlib_header.
+Proof. vm_compute. reflexivity. Qed.
+
+(* stripping: zlib.compress(b"") = 78 9c 03 00 00 00 00 01  ->  raw stream 03 00 (one final empty fixed block) *)
+Example c08_strip_example : strip_zlib [120; 156; 3; 0; 0; 0; 0; 1] = [3; 0].
+Proof. vm_compute. reflexivity. Qed.
+
 (* ---- RSA paddings and content-encryption sizes: the implementation's tables are the RFC's ---- *)
 Example c08_paddings :
   map (fun a => (ea_name a, ea_pad a)) (filter (fun a => fam_is (ea_family a) "RSA") jwe_alg_table_drafts)
@@ -164,5 +189,7 @@ Print Assumptions c08_otherinfo_fields.
 Print Assumptions c08_1pu_z_and_tag.
 Print Assumptions c08_pbes2_salt_count.
 Print Assumptions c08_gcmkw_fields.
+Print Assumptions c08_deflate_raw.
+Print Assumptions c08_deflate_raw_message.
 Print Assumptions c08_foreign_spelling.
 Print Assumptions c08_foreign_spelling_json.
